@@ -609,6 +609,36 @@ def rule_build_guards(F, ev_unused, R, config, rule="R-BUILD-GUARDS"):
         sites = [x for x in err_sites(F, variant, units, helper_units) if fn_pred(owner(x[0]))]
         if len(sites) < minimum:
             R.bad(rule, config, "-", "missing:" + variant, "error `%s` (%s) is never produced where expected: the defect is not detected" % (variant, what))
+        def eager(bd, env, s):
+            """an error built eagerly as the argument of `recv.ok_or(E)` is returned only when recv is absent"""
+            if s["place"]["proj"]:
+                return []
+            only_if = returned_only_if(ev, bd, env, s["place"]["l"])
+            return [L.of_term(t_, tr) for t_, tr in (only_if or [])]
+
+        def lifted(sites):
+            """a private helper that only constructs the error value (`fn mismatch(a, b) -> Error { Error::X { a, b } }`)
+            is not where the decision is taken: the site is its call, in every calling context"""
+            out = []
+            for b, bi, si, s in sites:
+                ctxs = HCTX.get(b.key, []) if (b.kind != "Closure" and not stable_name(b)) else []
+                if ctxs and unconditional_constructor(b, bi) and all(c.parent is not None and c.path for c in ctxs):
+                    seen = set()
+                    for c in ctxs:
+                        pk, pblk = c.path[-1]
+                        if (pk, pblk) in seen:
+                            continue
+                        seen.add((pk, pblk))
+                        pb = F.bodies.get(pk, c.parent.body)
+                        t_ = pb.blocks[pblk]["term"] if pblk < len(pb.blocks) else None
+                        if t_ is None or t_["k"] != "call":
+                            out.append((b, bi, si, s))
+                            break
+                        out.extend(lifted([(pb, pblk, None, {"place": t_["dest"], "span": t_.get("span") or s.get("span")})]))
+                else:
+                    out.append((b, bi, si, s))
+            return out
+        sites = lifted(sites)
         for b, bi, si, s in sites:
             ok = False
             ctxs = HCTX.get(b.key, []) if (b.kind != "Closure" and not stable_name(b)) else []
@@ -616,6 +646,7 @@ def rule_build_guards(F, ev_unused, R, config, rule="R-BUILD-GUARDS"):
             if ctxs:
                 # first in the helper's own terms (a validator taking the value to validate as `self`)
                 conds, env = site_conditions(F, ev, L, b, bi)
+                conds = conds + eager(b, env, s)
                 try:
                     own_ok = bool(matcher(conds, b, env, s))
                 except Exception:
@@ -634,6 +665,8 @@ def rule_build_guards(F, ev_unused, R, config, rule="R-BUILD-GUARDS"):
                     while x is not None:
                         if blk < len(bd.blocks) and blk in bd.live_blocks():
                             cs.extend(quantify_loop_conditions(L, bd, x, blk, L.conditions_at(bd, x, blk)))
+                            if x is cenv:
+                                cs.extend(eager(bd, x, s))
                         par = getattr(x, "parent", None)
                         if par is None or not x.path:
                             top = x
@@ -655,6 +688,7 @@ def rule_build_guards(F, ev_unused, R, config, rule="R-BUILD-GUARDS"):
                         conds = cs
             else:
                 conds, env = site_conditions(F, ev, L, b, bi)
+                conds = conds + eager(b, env, s)
                 try:
                     ok = bool(matcher(conds, b, env, s))
                 except Exception:
